@@ -19,7 +19,7 @@ import itertools
 
 import numpy as np
 
-from mc.util import fp, rng, viol
+from mc.util import deviations, fp, rng, viol
 from zoo import meshes as Z
 
 PROPERTY = "C17"
@@ -122,18 +122,23 @@ def configs() -> list[dict]:
     return out
 
 
-HIST_SOLVERS = ["History", "HistoryDamage", "BoundConstrain"]
-HIST_REGUS = ["AT1", "AT2"]
 HIST_SPLITS = ["Bourdin", "Amor", "Miehe", "He", "AnisotStress"]
-HIST_MESHES = ["QUAD4", "TRI3"]
 LOADS = {"0": 0.0, "+a": 1.0, "+2a": 2.0, "-a": -1.0}
 LOAD_A = 0.12
 
 
-def _hist_depth(tier, et):
-    if tier == "quick":
-        return 3 if et == "QUAD4" else 2
-    return 4
+def _hist_depth(tier):
+    return 3 if tier == "quick" else 4
+
+
+def hist_configs(tier) -> list[dict]:
+    """quick: full solver x regularisation x split product on 9 QUAD4, on 18 TRI3 the default configuration and every
+    configuration differing from it in one factor; thorough: full product on both meshes."""
+    factors = {"solver": ["HistoryDamage", "History", "BoundConstrain"], "regu": ["AT2", "AT1"],
+               "split": ["Amor", "Bourdin", "Miehe", "He", "AnisotStress"]}
+    out = [dict(c, elemType="QUAD4") for c in deviations(factors, None)]
+    out += [dict(c, elemType="TRI3") for c in deviations(factors, 1 if tier == "quick" else None)]
+    return out
 
 
 def cases(tier, seed):
@@ -147,19 +152,15 @@ def cases(tier, seed):
         dim = 3 if simp == "3D" else 2
         for s1 in letters(dim):
             out.append({"kind": "eigen", "simp": simp, "s1": s1})
-    for et in HIST_MESHES:
-        depth = _hist_depth(tier, et)
-        for solver in HIST_SOLVERS:
-            for regu in HIST_REGUS:
-                for split in HIST_SPLITS:
-                    for l1 in LOADS:
-                        out.append({"kind": "hist", "solver": solver, "regu": regu, "split": split, "elemType": et,
-                                    "l1": l1, "depth": depth})
+    for cfg in hist_configs(tier):
+        for l1 in LOADS:
+            out.append({"kind": "hist", **cfg, "l1": l1, "depth": _hist_depth(tier)})
     return out
 
 
 def describe(tier, seed):
-    d4, d3 = _hist_depth(tier, "QUAD4"), _hist_depth(tier, "TRI3")
+    depth = _hist_depth(tier)
+    ntri = len([c for c in hist_configs(tier) if c["elemType"] == "TRI3"])
     return {
         "rule": "E1 splits: every (split, simplification, material, letter domain) x every letter s1: s1 alone (Ne=1,nPg=1, all three API "
                 "functions), every ordered pair (s1,s2) on the two Gauss points of one element, every pair on two elements"
@@ -167,10 +168,13 @@ def describe(tier, seed):
                 + "; every degenerate letter at 8 amplitudes; eigen: the eigenvalues/eigenprojectors routine for every ordered pair. "
                 "E2 histories (unmerged): every load-letter sequence up to the depth bound on a freshly built simulation, "
                 "Solve+Save_Iter per letter, invariants after every letter. non-trivial (splits) = a non-zero state whose positive and "
-                "negative energies are both non-zero or a degenerate spectrum; non-trivial (hist) = damage > 0.05 reached and an unloading "
-                "letter follows; distinct = fingerprint of all observed outputs",
+                "negative energies are both non-zero or a degenerate spectrum; non-trivial (hist) = irreversibility is active at some step (the "
+                "driving energy seen by the damage solve is lower than the one that created the existing history/damage); "
+                "distinct = fingerprint of all observed outputs",
         "exhaustive": True,
-        "bound": f"splits: full product, all ordered in-element pairs; histories: QUAD4 length <= {d4}, TRI3 length <= {d3}",
+        "bound": f"splits: full product, all ordered in-element pairs; histories: all sequences of length <= {depth}; 30 configurations "
+                 f"(3 solvers x 2 regularisations x 5 splits) on QUAD4, {ntri} on TRI3"
+                 + (" (default HistoryDamage/AT2/Amor + all single-factor deviations)" if ntri < 30 else ""),
         "alphabet": {"splits": len(ALL_SPLITS), "simplifications": 3, "materials": 2, "letters_2D": len(letters(2)),
                      "letters_3D": len(letters(3)), "amplitudes": len(AMPS), "configs": len(configs()),
                      "solvers": 3, "regularisations": 2, "hist_splits": len(HIST_SPLITS), "hist_meshes": 2, "load_letters": len(LOADS)},
@@ -748,9 +752,14 @@ def run_sequence(case, seq):
                 e = int(np.argmax(np.abs(H - Hmean)))
                 v.append(viol("history_value", f"after [{pre}]: history field of element {e} is {H[e]:.6e}, running max of psi+ over the saved steps is {Hmean[e]:.6e}", **key))
             H_prev = H
-        if damaged and k > 0 and abs(LOADS[L]) < abs(LOADS[seq[k - 1]]):
-            nontriv = True
-        damaged = damaged or np.max(d_saved) > 0.05
+        # irreversibility active: History compares psi+(u_k) with H_(k-1); the damage solve of step k sees u_(k-1)
+        if solver == "History":
+            if k >= 1 and damaged and abs(LOADS[L]) < abs(LOADS[seq[k - 1]]):
+                nontriv = True
+            damaged = damaged or (H_prev is not None and np.max(H_prev) > 1e-3)
+        else:
+            if k >= 2 and np.max(d_prev) > 0.05 and abs(LOADS[seq[k - 1]]) < abs(LOADS[seq[k - 2]]):
+                nontriv = True
         d_prev = d_saved
     return v, obs, len(obs), nontriv
 
